@@ -2,7 +2,7 @@
    emitted layers, independent of how apko computes them, with the boolean
    validators run on what the implementation returned. *)
 From Apko Require Import Base.Prelude Model.Tar Spec.TarSpec Model.Layers.
-From Coq Require Import Sorting.Permutation.
+From Coq Require Import Sorting.Permutation Sorting.Sorted.
 Open Scope string_scope. Open Scope list_scope.
 
 (* ---- grouping ----------------------------------------------------------------- *)
@@ -77,6 +77,18 @@ Definition LayerWellFormed (es : list entry) : Prop :=
   forall pre e post, es = pre ++ e :: post ->
     (parent (e_path e) <> [] -> exists d, In d pre /\ is_dir d = true /\ e_path d = parent (e_path e)) /\
     (forall d, In d pre -> e_path d <> e_path e).
+
+(* The envelope of splitLayers' input: what fs.WalkDir over a tree yields —
+   paths strictly increasing in the fixed order (component-wise, bytewise), no
+   entry for the root, and a directory entry for the parent of every entry
+   below the top level (it then precedes the entry, by the order).  The walk
+   of every tree with distinct child names is such a sequence
+   (c10_walk_in_envelope). *)
+Definition WalkSeq (es : list entry) : Prop :=
+  StronglySorted (fun a b => path_lt (e_path a) (e_path b)) es /\
+  (forall e, In e es -> e_path e <> []) /\
+  (forall e, In e es -> parent (e_path e) <> [] ->
+     exists d, In d es /\ is_dir d = true /\ e_path d = parent (e_path e)).
 
 (* [single]: the entries of the single-layer build of the same filesystem.
    Applying the layers in order gives the same filesystem; every non-directory
